@@ -501,7 +501,10 @@ class Grid:
                 )
                 metric_vars = self.interp_like(mv, array, "extend", None)
         else:
-            for axis_combinations in iterate_axis_combinations(axes):
+            # enumerate the partitions with the axes in grid order, so that the choice among several
+            # possible products depends neither on the hash seed nor on the order the axes were listed in
+            ordered_axes = [ax for ax in self.axes if ax in axes]
+            for axis_combinations in iterate_axis_combinations(ordered_axes):
                 try:
                     # will raise KeyError if the axis combination is not in metrics
                     possible_metric_vars = [
